@@ -5,10 +5,11 @@ import vlib
 
 PROPS = ["C18/Props.v"]
 META = dict(
-    text="Rocq theorems over an executable model of the output path writer loop -> Wfile (bufio.Writer.Write/Flush transcribed from the Go library, sticky error) -> device accepting k bytes / failing at Close: for every chunk list, every arrival permutation, every buffer size and EVERY device, exit = ok implies that all expected bytes reached the device, it was closed exactly once and that Close succeeded (FASTA/FASTQ, JSON, CSV); explicitly: a device accepting k bytes with k smaller than the result, or a failing Close, gives a fatal exit (the model's fuel is proved sufficient). The unchanged code is kept as configuration `orig` with one refutation per discarded-error mechanism. Tied to the code on every run: the real WriteFasta/WriteFastq/WriteJSON/WriteCSV write into an io.WriteCloser failing after k bytes for every k of small outputs (boundary and sampled k around the 4096-byte buffer for outputs of 4-9 KB) or at Close, logrus' exit function is intercepted, and exit class (+ bytes received and close count on successful exits) is compared with the model (vm_compute) and with a Python oracle; the built obiconvert/obicsv commands are run against /dev/full and against a regular file.",
-    note="Trusted: Coq kernel + vm_compute; harness (in-process fatal hook: the first call of logrus' ExitFunc records the exit and the device state, later actions are ignored), generators. The gzip layer (pgzip) is not modelled: compressed outputs are checked by the oracle only (exit class vs gunzip of what arrived). The model's device fails by a short write + error and stays failed; other error shapes are not enumerated. FASTA/FASTQ theorem needs both write paths checked (the variant 'drained chunks unchecked but Flush error returned' also holds by stickiness of bufio's error but is only proved for JSON: C18_json_robust). CLI runs use /dev/full (Linux). Several formatting workers: compared under the identity arrival.")
+    text="Rocq theorems over an executable model of the output path writer loop -> Wfile (bufio.Writer.Write/Flush transcribed from the Go library, sticky error) -> lower layer: for every chunk list, every arrival permutation, every buffer size and EVERY device, exit = ok implies that all expected bytes were delivered, the output was closed exactly once and that Close succeeded. Proved (i) for the plain device accepting k bytes / failing at Close (FASTA/FASTQ, JSON, CSV; explicit: k smaller than the result, or a failing Close, gives a fatal exit; the model's fuel is sufficient), (ii) round 2: over an ABSTRACT lower layer (Layer.v), instantiated with COMPRESSED outputs (-Z: the compressor is any state machine that acts on the device only by writing and obeys the single law 'an error of the device is returned by a later Write or by Close': exit ok => the compressor got every expected byte and closed without error, no device write failed, one successful Close) and with other device error shapes (a short write WITHOUT error at any offset, an error on zero-length writes); (iii) for FASTA/FASTQ and CSV the robust variants (only Close checked + Flush error returned suffices: bufio's error is sticky), as for JSON. The unchanged code is kept as configuration `orig` with one refutation per discarded-error mechanism. Tied to the code on every run: the real WriteFasta/WriteFastq/WriteJSON/WriteCSV write into an io.WriteCloser failing after k bytes for every k of small outputs (boundary and sampled k around the 4096-byte buffer for outputs of 4-9 KB, chunk sizes of exactly 4095/4096/4097 bytes, chunks larger than the empty buffer, zero-length chunks), at Close, cutting a write short without error at offset c, or failing zero-length writes; logrus' exit function is intercepted, and exit class (+ bytes received, close count, zero-length writes seen on successful exits) is compared with the models (vm_compute) and with a Python oracle, which also demands 'exit ok => no Write/Close of the device returned an error' for compressed and plain runs; the built obiconvert/obicsv commands are run against /dev/full and against a regular file (stdout and -o).",
+    note="Trusted: Coq kernel + vm_compute; harness (in-process fatal hook: the first call of logrus' ExitFunc records the exit and the device state, later actions are ignored), generators. pgzip itself is not modelled: it enters the compressed theorems only through the law gz_law (hypothesis; shown satisfiable by a store-and-forward instance); that the law holds of pgzip is checked per run by the oracle (exit ok => gunzip(arrived) = expected and no device error), not proved. Decided device shapes: short write WITHOUT error - uncompressed safe (bufio: io.ErrShortWrite while flushing => fatal; retried on the direct path; proved + corresponded), compressed NOT safe (pgzip ignores the count: observation gzip-short-write-without-error, outside the io.Writer contract); error on a zero-length write - never reaches the device (0 zero-length writes observed in every run; model: bufio never forwards an empty write); failing Sync - nothing on the output path calls Sync (0 calls observed; a write-back error can only surface at Close, which is checked). CLI runs use /dev/full (Linux). Several formatting workers: compared under the identity arrival.")
 TRUSTED = ["bufio.Writer.Write/Flush transcribed by hand from the Go 1.23 library source (tied by the correspondence run, buffer size 4096)",
-           "pgzip (compressed outputs) not modelled: oracle only"]
+           "compressed outputs: pgzip is an abstract transducer constrained only by the hypothesis gz_law (acts on the device by writes only; a device error is returned by a later Write or by Close); the law is checked on pgzip per run by the oracle, not proved",
+           "devices honour the io.Writer contract in the compressed theorems (a short write without error below pgzip loses bytes: observation gzip-short-write-without-error)"]
 
 WRITERS = ["fasta", "fastq", "json", "csv"]
 KIND = dict(fasta="KFasta", fastq="KFastq", json="KJson", csv="KCsv")
@@ -16,6 +17,10 @@ IMPORTS = ("From Coq Require Import NArith List. Import ListNotations.\n"
            "From OBI.C18 Require Import Model.\n")
 
 SMALL = [([1, 1, 1], [0, 1, 2]), ([1, 1, 1], [2, 1, 0]), ([1, 1, 1], [1, 2, 0]), ([1, 0, 2], [2, 0, 1]), ([], []), ([0], [0]), ([2], [0])]
+# chunk sizes in bytes around the 4096-byte buffer of bufio (per chunk and in total), chunks larger than
+# the buffer arriving when it is empty, zero-length chunks
+BOUNDARY = [([4095], [0]), ([4096], [0]), ([4097], [0]), ([2048, 2047], [1, 0]), ([2048, 2048], [1, 0]), ([2048, 2049], [0, 1]),
+            ([4000, 96, 0], [1, 0, 2]), ([0, 9000, 0, 100], [0, 1, 2, 3]), ([100, 9000], [1, 0]), ([4096, 4096], [1, 0]), ([60, 0, 0, 4036], [3, 2, 1, 0])]
 BIG = [([1, 1, 1], [0, 1, 2], 1400), ([1, 1, 1], [1, 2, 0], 1400), ([1, 1, 1], [2, 1, 0], 1400), ([1, 1], [1, 0], 4200), ([2, 1], [0, 1], 2100)]
 
 # witnesses of the three mechanisms (always first)
@@ -37,18 +42,31 @@ CORPUS = [
 
 
 def norm(c):
-    return dict(writer=c["writer"], sizes=c["sizes"], arrival=c["arrival"], workers=c.get("workers", 1), compressed=bool(c.get("compressed")),
-                seqlen=c.get("seqlen", 0), fail_at=c.get("fail_at", -1), close_fails=bool(c.get("close_fails")))
+    return dict(writer=c["writer"], sizes=c.get("sizes") or [], bytes=c.get("bytes") or [], arrival=c["arrival"], workers=c.get("workers", 1), compressed=bool(c.get("compressed")),
+                seqlen=c.get("seqlen", 0), fail_at=c.get("fail_at", -1), close_fails=bool(c.get("close_fails")),
+                cut_at=c.get("cut_at", 0), zero_err=bool(c.get("zero_err")))
 
 
-def run_impl(ctx, cases, nproc=8):
+def shaped(c):
+    return c.get("cut_at", 0) > 0 or bool(c.get("zero_err"))
+
+
+def run_impl(ctx, cases, nproc=8, post=None):
+    """[post(i, case, obs)] is applied to every observation as soon as its part is back (oracle, Gallina term,
+    dropping of the bulky fields: memory)."""
     vc = [norm(c) for c in cases]
+
+    def part(lo, hi, tmo):
+        r = ctx.vh_robust("c18", vc[lo:hi], timeout=tmo, one_timeout=15)
+        if post:
+            r = [post(lo + j, cases[lo + j], o) for j, o in enumerate(r)]
+        return r
     if len(vc) < 300:
-        return ctx.vh_robust("c18", vc, timeout=300, one_timeout=15)
-    k = (len(vc) + nproc - 1) // nproc
-    parts = [vc[i:i + k] for i in range(0, len(vc), k)]
+        return part(0, len(vc), 300)
+    k = 1500 if len(vc) > 12000 else (len(vc) + nproc - 1) // nproc
+    bounds = [(i, min(i + k, len(vc))) for i in range(0, len(vc), k)]
     with ThreadPoolExecutor(max_workers=nproc) as ex:
-        res = list(ex.map(lambda p: ctx.vh_robust("c18", p, timeout=900, one_timeout=15), parts))
+        res = list(ex.map(lambda b: part(b[0], b[1], 900), bounds))
     return [o for r in res for o in r]
 
 
@@ -78,10 +96,18 @@ def arrived(c, o):
 def check(c, o):
     """Direct oracle: exit ok => every expected byte reached the device and it was closed (once);
     no injected fault => exit ok."""
+    if o.get("kind") == "skip":
+        return None      # a chunk of exactly that many bytes cannot be formed
     if o.get("kind") != "ok":
         return "writer did not terminate / crashed: %s" % (o.get("err") or o.get("kind"))
     exp = expected_bytes(c, o)
+    if o["exit"] == "ok" and c.get("compressed") and c.get("cut_at", 0) > 0 and not o.get("dev_failed") and o["closes"] == 1:
+        # observation gzip-short-write-without-error (known_findings.d/C18.json): pgzip relies on the io.Writer
+        # contract (n < len(p) => err != nil); a device breaking it is outside the property's fault model
+        return None
     if o["exit"] == "ok":
+        if o.get("dev_failed"):
+            return "successful exit although a Write or the Close of the output returned an error"
         if arrived(c, o) != exp:
             got = bytes.fromhex(o.get("got") or "")
             return "successful exit although only %d bytes%s reached the output (fault after %s bytes%s)" % (
@@ -93,6 +119,10 @@ def check(c, o):
         return None
     # fatal: legitimate only if a fault was injected and could be hit
     k = c.get("fail_at", -1)
+    if c.get("cut_at", 0) > 0 and c["cut_at"] < len(exp):
+        return None      # a short write without error: bufio may turn it into io.ErrShortWrite
+    if c.get("zero_err") and o.get("zero_writes"):
+        return None
     if not c.get("close_fails") and (k < 0 or (not c.get("compressed") and k >= len(exp))):
         return "fatal exit without any output failure"
     return None
@@ -145,7 +175,7 @@ def packed(b):
 
 def case_term(tab, c, o):
     chunks = [bytes.fromhex(x) for x in (o.get("chunks") or [])]
-    arrival = c["arrival"] if c.get("workers", 1) == 1 else list(range(len(c["sizes"])))
+    arrival = c["arrival"] if c.get("workers", 1) == 1 else list(range(len(c.get("bytes") or c["sizes"])))
     k = c.get("fail_at", -1)
     got = bytes.fromhex(o.get("got") or "")
     exp = expected_bytes(c, o)
@@ -157,31 +187,67 @@ def case_term(tab, c, o):
         "false" if c.get("close_fails") else "true", "true" if o["exit"] == "fatal" else "false", gterm, o["closes"])
 
 
+def scase_term(tab, c, o):
+    chunks = [bytes.fromhex(x) for x in (o.get("chunks") or [])]
+    arrival = c["arrival"] if c.get("workers", 1) == 1 else list(range(len(c.get("bytes") or c["sizes"])))
+    k = c.get("fail_at", -1)
+    got = bytes.fromhex(o.get("got") or "")
+    exp = expected_bytes(c, o)
+    gterm = ("firstn (N.to_nat %d) %s" % (len(got), tab.ref(exp))) if (exp[:len(got)] == got and got) else nlist(got)
+    cut = c.get("cut_at", 0)
+    return "mksc %s %s [%s] [%s] %s %s %s %s %s (%s) %d %d" % (
+        KIND[c["writer"]], tab.ref(bytes.fromhex(o.get("header") or "")), "; ".join(tab.ref(x) for x in chunks),
+        "; ".join(str(i) for i in arrival), "None" if k < 0 else "(Some (N.to_nat %d))" % k,
+        "false" if c.get("close_fails") else "true", "(Some (N.to_nat %d))" % cut if cut > 0 else "None",
+        "true" if c.get("zero_err") else "false", "true" if o["exit"] == "fatal" else "false", gterm, o["closes"], o.get("zero_writes", 0))
+
+
 def evaluate(ctx, cases, broken, label, corr=True, fn="mismatches"):
-    obs = run_impl(ctx, cases)
-    fails = []
-    for i, (c, o) in enumerate(zip(cases, obs)):
+    import threading
+    tab, tab2, lock = Table(), Table(), threading.Lock()
+
+    def post(i, c, o):
         why = check(c, o)
-        if why:
-            fails.append((i, why))
+        o["_why"] = why
+        o["got_len"] = len(o.get("got") or "") // 2
+        if o.get("kind") == "ok":
+            o["_exp_len"] = len(expected_bytes(c, o))
+            o["_lost"] = (o.get("exit") == "ok" and arrived(c, o) != expected_bytes(c, o))
+            if corr and not c.get("compressed"):
+                with lock:
+                    o["_term"] = scase_term(tab2, c, o) if shaped(c) else case_term(tab, c, o)
+        if why is None:
+            o.pop("chunks", None); o.pop("got", None)      # not looked at again
+        return o
+    obs = run_impl(ctx, cases, post=post)
+    fails = [(i, o["_why"]) for i, o in enumerate(obs) if o.get("_why")]
     shown = set()
     for i, why in fails:
         key = (cases[i]["writer"], why.split(" bytes")[0][:40], bool(cases[i].get("compressed")))
         if key in shown or len(shown) >= 6:
             continue
         shown.add(key)
-        o = dict(obs[i]); o.pop("chunks", None)
+        o = {k: v for k, v in obs[i].items() if k not in ("chunks", "_term")}
         ctx.violation("%s_oracle_%d" % (label, i), dict(property="C18", kind="direct-oracle", case=norm(cases[i]), tag=cases[i].get("tag"), why=why,
-                                                      implementation=o, expected="exit fatal, or all %d bytes delivered and one Close" % len(expected_bytes(cases[i], obs[i]))))
+                                                      implementation=o, expected="exit fatal, or all %d bytes delivered and one Close" % obs[i].get("_exp_len", 0)))
     if not corr:
         return obs, fails, []
-    idx = [i for i, (c, o) in enumerate(zip(cases, obs)) if o.get("kind") == "ok" and not c.get("compressed")]
-    tab = Table()
-    terms = [case_term(tab, cases[i], obs[i]) for i in idx]
+    idx = [i for i, (c, o) in enumerate(zip(cases, obs)) if o.get("_term") and not shaped(c)]
+    terms = [obs[i]["_term"] for i in idx]
     bad, err = ctx.correspond(label, IMPORTS + tab.defs(), terms, fn=fn, shard=250 if ctx.quick else 150, timeout=2400)
     if bad is None:
         broken.append(dict(kind="correspondence", detail=err))
         return obs, fails, []
+    # the other device shapes: model over the abstract lower layer (Layer.v), device [sdev]
+    sidx = [i for i, (c, o) in enumerate(zip(cases, obs)) if o.get("_term") and shaped(c)]
+    if sidx and fn == "mismatches":
+        sterms = [obs[i]["_term"] for i in sidx]
+        sbad, err = ctx.correspond(label + "_shapes", IMPORTS.replace("Require Import Model.", "Require Import Model Layer.") + tab2.defs(), sterms,
+                                   fn="smismatches", shard=250 if ctx.quick else 150, timeout=2400)
+        if sbad is None:
+            broken.append(dict(kind="correspondence", detail=err))
+            return obs, fails, [idx[i] for i in bad]
+        return obs, fails, [idx[i] for i in bad] + [sidx[i] for i in sbad]
     return obs, fails, [idx[i] for i in bad]
 
 
@@ -194,6 +260,8 @@ def gen_cases(ctx, extra_random):
             base.append(dict(writer=w, sizes=sizes, arrival=arr, fail_at=-1))
         for sizes, arr, sl in BIG:
             base.append(dict(writer=w, sizes=sizes, arrival=arr, seqlen=sl, fail_at=-1))
+        for sizes, arr in (BOUNDARY if not ctx.quick else BOUNDARY[ctx.rng.randrange(3):][::3]):
+            base.append(dict(writer=w, bytes=sizes, arrival=arr, fail_at=-1))
         base.append(dict(writer=w, sizes=[1, 1, 1, 1], arrival=[0, 1, 2, 3], workers=4, fail_at=-1))
         base.append(dict(writer=w, sizes=[1, 2, 1], arrival=[2, 0, 1], fail_at=-1, compressed=True))
         base.append(dict(writer=w, sizes=[2, 1, 2], arrival=[1, 2, 0], seqlen=2000, fail_at=-1, compressed=True))
@@ -220,6 +288,21 @@ def gen_cases(ctx, extra_random):
         cases.append(dict(c, close_fails=True))
         if total > 0:
             cases.append(dict(c, fail_at=total // 2, close_fails=True))
+        # other device shapes: a short write WITHOUT error at offset cut; an error on zero-length writes
+        if total > 1:
+            if c.get("compressed"):
+                cuts = {1, total // 2, total - 1}
+            elif total <= 600:
+                cuts = set(range(1, total, 3 if ctx.quick else 1))
+            else:
+                cuts = {1, 100, 4095, 4096, 4097, 8191, 8192, 8193, total - 1, total // 2} | {rng.randrange(1, total) for _ in range(4 if ctx.quick else 60)}
+            for cut in sorted(x for x in cuts if 0 < x < total):
+                cases.append(dict(c, cut_at=cut))
+            cut = rng.randrange(1, total)
+            cases.append(dict(c, cut_at=cut, fail_at=rng.randrange(cut, total + 1)))
+            cases.append(dict(c, cut_at=cut, close_fails=True))
+        cases.append(dict(c, zero_err=True))
+        cases.append(dict(c, zero_err=True, fail_at=total // 2))
     for _ in range(extra_random):
         n = rng.randrange(0, 6)
         arr = list(range(n)); rng.shuffle(arr)
@@ -248,6 +331,7 @@ def cli_cases(ctx):
             res.append(dict(argv=args, mode="-o"))
             res.append(dict(argv=args, mode=">"))
         res.append(dict(argv=["obicsv", "-i", "-s", fa], mode=">"))
+        res.append(dict(argv=["obicsv", "-i", "-s", fa], mode="-o"))
     return res
 
 
@@ -295,7 +379,7 @@ def cli_check(ctx, broken):
 
 
 def nontrivial(c):
-    return c.get("fail_at", -1) >= 0 or c.get("close_fails")
+    return c.get("fail_at", -1) >= 0 or c.get("close_fails") or shaped(c)
 
 
 def run(ctx, broken):
@@ -313,16 +397,26 @@ def run(ctx, broken):
     ctx.cov["distribution"] = dist
     ctx.cov["oracle_failures"] = len(fails)
     ctx.cov["model_vs_impl_mismatches"] = len(mism)
+    ctx.cov["device_shapes"] = dict(
+        short_write_without_error=sum(1 for c in cases if c.get("cut_at", 0) > 0),
+        short_write_without_error_fatal=sum(1 for c, o in zip(cases, obs) if c.get("cut_at", 0) > 0 and c.get("fail_at", -1) < 0 and not c.get("close_fails") and o.get("exit") == "fatal"),
+        short_write_without_error_retried_ok=sum(1 for c, o in zip(cases, obs) if c.get("cut_at", 0) > 0 and o.get("exit") == "ok"),
+        error_on_zero_length_write=sum(1 for c in cases if c.get("zero_err")),
+        zero_length_writes_that_reached_the_device=sum(o.get("zero_writes", 0) for o in obs),
+        sync_calls_on_the_output=sum(o.get("syncs", 0) for o in obs),
+        compressed_runs=sum(1 for c in cases if c.get("compressed")),
+        observation_gzip_short_write_without_error_lost_bytes=sum(1 for c, o in zip(cases, obs) if c.get("compressed") and c.get("cut_at", 0) > 0 and o.get("_lost")),
+        compressed_ok_exits_with_a_failed_device_write=sum(1 for c, o in zip(cases, obs) if c.get("compressed") and o.get("exit") == "ok" and o.get("dev_failed")))
     ctx.samples = []
     for i in (0, 2, 4, len(CORPUS) + 1, len(cases) - 1):
-        o = dict(obs[i]); o.pop("chunks", None); o["got"] = "%d bytes" % (len(o.get("got") or "") // 2)
+        o = {k: v for k, v in obs[i].items() if k not in ("chunks", "got", "_term")}; o["got"] = "%d bytes" % obs[i].get("got_len", 0)
         ctx.samples.append(dict(case=norm(cases[i]), implementation=o))
     if mism and not ctx.violations:
         more = gen_cases(ctx, 6000)
         evaluate(ctx, more, [], "search", corr=False)
         if not ctx.violations:
             i = mism[0]
-            o = dict(obs[i]); o.pop("chunks", None)
+            o = {k: v for k, v in obs[i].items() if k not in ("chunks", "_term")}
             broken.append(dict(kind="correspondence", name="corr:C18/%s/exit+bytes+closes" % cases[i]["writer"], first_diverging_case=norm(cases[i]),
                                implementation=o, n_diverging=len(mism)))
     elif mism:
@@ -337,5 +431,5 @@ def replay(ctx, rp):
         print("replay:", c, "-> exit on /dev/full:", run_cli(bindir, c, "/dev/full"))
         return
     obs, fails, mism = evaluate(ctx, [c], [], "replay")
-    o = dict(obs[0]); o.pop("chunks", None); o["got"] = "%d bytes" % (len(o.get("got") or "") // 2)
+    o = {k: v for k, v in obs[0].items() if k not in ("chunks", "got", "_term")}; o["got"] = "%d bytes" % obs[0].get("got_len", 0)
     print("replay:", c, "->", o, "| oracle:", fails[0][1] if fails else "ok", "| model:", "mismatch" if mism else "agrees")
